@@ -18,11 +18,11 @@ CHECK = {
         "pkg/passwd/passwd.go:UserFile.Load": "6e1b7bec89af5954",
         "pkg/passwd/group.go:ReadGroupFile": "307ff404acf77662",
         "pkg/passwd/group.go:GroupFile.Load": "8d4895eba64f6193",
-        "pkg/tarfs/fs.go:memFS.link": "1530e995bdb814c8",
+        "pkg/tarfs/fs.go:memFS.link": "b2af5e65ea8d723a",
         "pkg/tarfs/fs.go:memFS.WriteHeader": "3d9c502472244b9d",
         "pkg/tarfs/fs.go:memFS.ReadDir": "38d3d60bcd1feae4",
         "pkg/apk/fs/memfs.go:memFS.ReadDir": "fcb64e8ab9b90090",
-        "pkg/apk/fs/memfs.go:memFS.Link": "84b3bb78992a21ad"
+        "pkg/apk/fs/memfs.go:memFS.Link": "44f3416ef5f52655"
 },
     "level": "proof",
     "design_ref": "DESIGN.md §4 C06",
